@@ -49,6 +49,13 @@ def main():
     mod = importlib.import_module('harness.props.' + a.prop.lower())
     if a.replay:
         data = json.load(open(a.replay))
+        if 'case' not in data and 'no_longer_checks' in data:
+            # a no-failing-input-found report: nothing to run on the implementation; name what no longer checks
+            print('no failing input was found; the theorems / correspondences that no longer check:')
+            for x in data['no_longer_checks']:
+                print('  -', str(x)[:600])
+            print('re-run ./check %s --tier %s with VERIF_SEED=%s to reproduce' % (a.prop if hasattr(a, 'prop') else data.get('property'), data.get('tier'), data.get('seed')))
+            sys.exit(1)
         sys.exit(mod.replay(data))
     chk = common.Check(a.prop, a.tier, seed)
     try:
